@@ -30,6 +30,9 @@ def values():
                   "time_tai": Time("2021-03-04T05:06:07.5", format="isot", scale="tai"),
                   "time_subns": Time("2021-03-04T05:06:07", format="isot", precision=9) + (1 / 3) * u.ns,
                   "time_array1": Time([59000.5], format="mjd"),
+                  "time_array_isot9": Time(["2021-03-04T05:06:07", "2021-03-04T05:06:08"], format="isot", precision=9),
+                  "time_array1_isot9": Time(["2021-03-04T05:06:07"], format="isot", precision=9),
+                  "time_tcb": Time("2019-05-06T07:08:09.25", format="isot", scale="tcb", precision=9),
                   "float": 59867.2442234, "time_array": Time([59000.5, 59001.5], format="mjd"),
                   "garbage": "hello", "list": [1, 2]},
         "meta": {"none": None, "dict": {"a": 1, "b": {"c": [1, 2]}}, "empty": {}, "pairs": [("a", 1)], "int": 5,
@@ -37,8 +40,9 @@ def values():
                  "ordered": __import__("collections").OrderedDict([("z", 1), ("a", 2)]),
                  "string": "ab", "list_ints": [1, 2, 3]},
         "align": {"bottom": "bottom", "center": "center", "top": "top", "middle": "middle", "none": None, "one": 1,
-                  "upper": "TOP"},
-        "pol": {"linear": "linear", "circular": "circular", "elliptical": "elliptical", "none": None, "xy": "XY"},
+                  "upper": "TOP", "arr0d": np.array("center"), "list1": ["center"], "anyeq": __import__("unittest.mock").mock.ANY},
+        "pol": {"linear": "linear", "circular": "circular", "elliptical": "elliptical", "none": None, "xy": "XY",
+                "arr0d": np.array("circular"), "list1": ["linear"], "anyeq": __import__("unittest.mock").mock.ANY},
     }
 
 
@@ -274,6 +278,64 @@ def zoo(s, desc):
     return out
 
 
+def unknown_shape_cases(cases, V):
+    """Dask arrays whose axis lengths are unknown (NaN) until computed (a lazy boolean mask along one axis).
+    The verdict is the specification's verdict on the TRUE shape (looked up among the generated cases whose only
+    deviation is the shape): a true shape the class refuses must never yield an object; for a valid true shape
+    refusing the unknown length is as good as accepting it, but an accepted object must satisfy the contract
+    once computed."""
+    import common
+    import dask.array as da
+    verdict = {}
+    base = {}
+    for c in cases:
+        a = c["args"]
+        verdict.setdefault((a["cls"], tuple(a["shape"])), []).append(c)
+    out, n = [], 0
+    for (cls, shape), cs in sorted(verdict.items()):
+        # the case with the fewest deviations carries the verdict of the shape alone
+        c = min(cs, key=lambda c: sum(1 for k, v in c["args"].items() if k in ("rate", "start", "meta", "cf", "cbw", "align", "pol")
+                                      and v not in ("MHz1", "time", "dict", "GHz1", "kHz250", "center", "linear")))
+        a = c["args"]
+        if any(a[k] != v for k, v in (("rate", "MHz1"), ("start", "time"), ("meta", "dict"))) or len(shape) < 1:
+            continue
+        if a["dtype"] not in ("float64", "complex128"):
+            continue
+        req = {"Signal": 1, "RadioSignal": 2, "IntensitySignal": 2, "BasebandSignal": 2, "FullStokesSignal": 3,
+               "DualPolarizationSignal": 3}[cls]
+        # (only the class's required axes: the length of a further sample axis cannot be known without computing,
+        # so what the constructor does with it is not fixed by the property)
+        for ax in range(min(req, len(shape))):
+            big = list(shape)
+            big[ax] = shape[ax] + 2
+            raw = da.from_array(make_data(tuple(big), a["dtype"], False), chunks=tuple(max(1, x) for x in big))
+            keep = np.zeros(big[ax], bool)
+            keep[:shape[ax]] = True
+            ix = [slice(None)] * len(shape)
+            ix[ax] = da.from_array(keep, chunks=(big[ax],))
+            x = raw[tuple(ix)]                           # shape[ax] is NaN until computed
+            kw = kwargs_for(a, V)
+            desc = "%s(dask data of true shape %s, axis %d of unknown length)" % (cls, shape, ax)
+            n += 1
+            try:
+                obj = common.CLASSES[cls](x, **kw)
+            except Exception as e:  # noqa
+                continue
+            if c["expect"] == "err":
+                out.append(("construct:accepted-invalid:unknown-length", desc + " was accepted: %r" % (obj,),
+                            {"kind": "unknown-shape", "cls": cls, "shape": list(shape), "ax": ax}))
+                continue
+            try:
+                y = common.CLASSES[cls](np.asarray(obj.data.compute()), **kwargs_for(a, V))
+                bad = common.contract(y)
+            except Exception as e:  # noqa
+                bad = ["computed data refused by the class: %r" % (e,)]
+            if bad and c["expect"] != "either":
+                out.append(("construct:unknown-length:contract", desc + ": %s" % bad,
+                            {"kind": "unknown-shape", "cls": cls, "shape": list(shape), "ax": ax}))
+    return out, n
+
+
 def load_cases(path):
     import json
     cases, catalog = [], None
@@ -332,7 +394,11 @@ def run(chk):
                 chk.violation(key, desc, {"kind": "contract", "case": case, "dask": dask})
         if i < 3:
             chk.sample({"args": case["args"], "expect": case["expect"]})
-    chk.validated += n
+    res, m = unknown_shape_cases(cases, V)
+    for key, desc, case in res:
+        chk.violation(key, desc, case)
+    chk.notes["unknown_length_axes"] = m
+    chk.validated += n + m
     chk.notes["constructor_cases"] = n
     chk.notes["catalogue_sizes"] = {k: len(v) for k, v in catalog.items()}
     if thorough:
@@ -355,8 +421,16 @@ def replay(doc):
     V = values()
     out = os.path.join(SCR, "C16_replay_%d.ndjson" % os.getpid())
     r = tlc.run("Gen_Contract", "Gen_Contract.cfg", env={"GEN_OUT": out}, timeout=600)
-    _, catalog = load_cases(out)
+    allcases, catalog = load_cases(out)
     os.remove(out)
+    if c.get("kind") == "unknown-shape":
+        res, _ = unknown_shape_cases(allcases, V)
+        res = [r for r in res if r[2] == c]
+        for key, desc, _ in res:
+            print("VIOLATION property=C16 replay=(this case)  # %s: %s" % (key, desc))
+        if not res:
+            print("case passes")
+        return 1 if res else 0
 
     class Dummy:
         pass
